@@ -686,20 +686,44 @@ class Engine(object):
                         if k is not None:
                             work.append(k)
             elif isinstance(o, Closure):
-                eid = o.env
-                while eid is not None:
-                    for vv in st.envs[eid].values():
-                        if isinstance(vv, Z) and vv.sort == "val":
-                            k = self.concrete_id(vv.t)
-                            if k is not None:
-                                work.append(k)
-                    eid = st.env_parent[eid]
+                # a closure reaches exactly its free variables (those its code - nested functions included - names)
+                for vv in self.closure_captures(st, o):
+                    if isinstance(vv, Z) and vv.sort == "val":
+                        k = self.concrete_id(vv.t)
+                        if k is not None:
+                            work.append(k)
+                    elif isinstance(vv, (Bound, TupleV, Partial)):
+                        try:
+                            k = self.concrete_id(self.to_val(st, vv))
+                        except Unsupported:
+                            k = None
+                        if k is not None:
+                            work.append(k)
             elif isinstance(o, Partial):
                 for it in list(o.args) + list(o.kwargs.values()):
                     if isinstance(it, Z) and it.sort == "val":
                         k = self.concrete_id(it.t)
                         if k is not None:
                             work.append(k)
+
+    def closure_captures(self, st, clo, seen=None):
+        seen = set() if seen is None else seen
+        key = (clo.func.qualname, clo.env)
+        if key in seen:
+            return []
+        seen.add(key)
+        names = set(n.id for n in ast.walk(clo.func.node) if isinstance(n, ast.Name))
+        out = []
+        for name in sorted(names):
+            eid = st.lookup_env(clo.env, name) if clo.env is not None else None
+            if eid is None:
+                continue
+            vv = st.envs[eid][name]
+            if isinstance(vv, Closure):
+                out += self.closure_captures(st, vv, seen)
+            else:
+                out.append(vv)
+        return out
 
     # =========================================================================================
     # names
@@ -1364,7 +1388,8 @@ class Engine(object):
     def call_func(self, st, fr, func, args, kwargs, star, starkw, node, env=None, self_cls=None):
         """Call a repository function: by contract if one is registered for call sites, else inline."""
         con = self.cfg.contracts.get(func.qualname)
-        if con is not None and not getattr(con, "inline", False):
+        if con is not None and not getattr(con, "inline", False) and not (fr is not None and fr.depth == -1):
+            # (the unit's own entry is executed; a contract registered for the same function applies to recursive calls)
             for r in con.apply(self, st, fr, func, args, kwargs, star, starkw, node):
                 yield r
             return
